@@ -1010,7 +1010,7 @@ pub fn run_op(r: &Req, b: &Built) -> Result<String, String> {
                                 }
                                 Ok(()) => {
                                     let (t, f) = aho_corasick::verif::counters();
-                                    outs.push(format!("{}/{}", t, f));
+                                    outs.push(format!("{}/{}/{}", t, f, aho_corasick::verif::prescan()));
                                 }
                             }
                         }
